@@ -212,25 +212,16 @@ const RENDER_DONE: &str = "h.render.done";
 /// yield point of the harness itself, right before a scheduled `render()` is called: together with `RENDER_DONE` it
 /// delimits the grants of one render in the trace (which drain pass a failed detach CAS belongs to)
 const RENDER_BEGIN: &str = "h.render.begin";
-/// id of the known finding "a render whose drain's detach CAS failed misses completed record() calls"
-const K2_ID: &str = "K-C07-K2";
-
-/// is the finding id listed in known_findings.json? (read at run time; an oracle failure for a finding that is not listed
-/// there would be reported as a new violation — the reproduction is always counted in the distribution table)
-fn known_has(id: &str) -> bool {
-    let p = concat!(env!("CARGO_MANIFEST_DIR"), "/../known_findings.json");
-    std::fs::read_to_string(p).map(|s| s.contains(&format!("\"{}\"", id))).unwrap_or(false)
-}
-
-/// K2 (Lean: `C07.conc_render_can_miss_completed_record`, `C05.failed_detach_delivers_nothing_and_loses_nothing`): per
-/// scheduled render — (thread, how many renders of that thread came before it) — the keys whose bucket's detach CAS
-/// FAILED inside that render's drain pass. Read off the trace alone: a `bkt.clear.cas` grant of the rendering thread,
-/// between its `h.render.begin` and `h.render.done` grants, after which the thread's next point is not
-/// `bkt.clear.quiesced` (the CAS failed: `clear_with` returned without draining); the key is that of a recording thread
-/// whose hand-over CAS (`bkt.push.cas_new`, won: its next point is the claim in the new block) was granted between that
-/// drain's tail load and its CAS — the only way the tail of a bucket can change under a drain that holds the
-/// distributions lock.
-fn k2_failed_detach_keys(spec: &Spec, tr: &[(usize, &'static str)]) -> std::collections::HashMap<(usize, usize), Vec<usize>> {
+/// Failed detaches inside a render's drain pass (Lean: `C05.detach_cas_all_or_nothing`, `C07.conc_render_after_failed_detach_shows_all`;
+/// before the fix "clear_with retries its detach when the tail moved under it" this was the defect K-C07-K2,
+/// `C07.legacy_render_misses_completed_record`): per scheduled render — (thread, how many renders of that thread came
+/// before it) — the keys whose bucket's detach CAS FAILED inside that render's drain pass. Read off the trace alone: a
+/// `bkt.clear.cas` grant of the rendering thread, between its `h.render.begin` and `h.render.done` grants, after which the
+/// thread's next point is not `bkt.clear.quiesced` (the CAS failed: `clear_with` goes back to `bkt.clear.load_tail` and
+/// retries); the key is that of a recording thread whose hand-over CAS (`bkt.push.cas_new`, won: its next point is the
+/// claim in the new block) was granted between that drain's tail load and its CAS — the only way the tail of a bucket can
+/// change under a drain that holds the distributions lock. Used for the distribution table only: NOTHING is excused by it.
+fn failed_detach_keys(spec: &Spec, tr: &[(usize, &'static str)]) -> std::collections::HashMap<(usize, usize), Vec<usize>> {
     let next_of = |gi: usize, t: usize| tr[gi + 1..].iter().find(|(t2, _)| *t2 == t).map(|x| x.1);
     let key_of = |t: usize| match spec.roles.get(t) {
         Some(Role::Recorder { key, .. }) | Some(Role::Registrar { key, .. }) => Some(*key),
@@ -561,15 +552,14 @@ fn judge_completed(out: &mut Out, spec: &Spec, sh: &Shared, run: &crate::sched::
     let mut renders = sh.renders.lock().unwrap().clone();
     renders.sort_by_key(|r| r.1);
     let mut parsed: Vec<(usize, u64, u64, Vec<(u64, f64)>)> = vec![];
-    // K2: renders whose drain pass had a failed detach CAS on a key's bucket (read off the trace)
-    let k2_keys = k2_failed_detach_keys(spec, &run.trace);
-    if !k2_keys.is_empty() {
-        out.count("concurrent.runs-with-a-failed-detach-inside-a-render's-drain");
+    // renders whose drain pass had a failed (hence retried) detach CAS on a key's bucket (read off the trace): counted only
+    let fd_keys = failed_detach_keys(spec, &run.trace);
+    if !fd_keys.is_empty() {
+        out.count("concurrent.runs-with-a-failed-detach-inside-a-render's-drain(retried)");
     }
-    let mut k2_witness: Option<String> = None;
     let mut nth_render = vec![0usize; spec.roles.len()];
     for (t, s0, lo, text, hi, s1) in &renders {
-        let excused: Vec<usize> = k2_keys.get(&(*t, nth_render[*t])).cloned().unwrap_or_default();
+        let retried: Vec<usize> = fd_keys.get(&(*t, nth_render[*t])).cloned().unwrap_or_default();
         nth_render[*t] += 1;
         let c = match counts_of(text) {
             Ok(c) => c,
@@ -579,25 +569,18 @@ fn judge_completed(out: &mut Out, spec: &Spec, sh: &Shared, run: &crate::sched::
             }
         };
         for k in 0..nk {
-            // every record() that had returned before this render began is in it (up to the known stragglers);
+            // every record() that had returned before this render began is in it (up to the known stragglers) — ALSO when
+            // the detach CAS of this render's drain pass failed (it is retried: `C07.conc_render_shows_completed_partial`);
             // nothing is in it that had not at least begun when it ended
-            if c[k].0 + allowance < lo[k] && excused.contains(&k) {
-                // K2: the drain pass of THIS render failed to detach THIS key's bucket (a record() handed the tail over
-                // between the drain's tail load and its CAS): the pass folded nothing for the key, the render shows what
-                // the distribution held before. Nothing is lost (checked below: the count after the run is complete).
-                out.count("concurrent.K2:render-misses-completed-records(failed-detach-in-its-drain)");
-                if k2_witness.is_none() {
-                    k2_witness = Some(format!(
-                        "key {} thread {}: shows {} but {} record() calls had returned before it began (K1 stragglers in the trace: {}); spec {:?} trace {:?}",
-                        KEY_NAMES[k], t, c[k].0, lo[k], allowance, spec, run.trace
-                    ));
-                }
-            } else if c[k].0 + allowance < lo[k] {
+            if retried.contains(&k) && c[k].0 + allowance >= lo[k] && lo[k] > 0 {
+                out.count("concurrent.render-shows-completed-records-after-a-failed-detach-in-its-drain(retry)");
+            }
+            if c[k].0 + allowance < lo[k] {
                 out.oracle_fail(
                     "a render() concurrent with record()/render()/run_upkeep() misses samples whose record() had returned before it started [no-known-signature]",
                     &format!(
-                        "key {} thread {}: shows {} but {} record() calls had returned (K1 stragglers in the trace: {}); spec {:?} trace {:?}",
-                        KEY_NAMES[k], t, c[k].0, lo[k], allowance, spec, run.trace
+                        "key {} thread {}: shows {} but {} record() calls had returned (K1 stragglers in the trace: {}; failed detach of this key inside this render's drain: {}); spec {:?} trace {:?}",
+                        KEY_NAMES[k], t, c[k].0, lo[k], allowance, retried.contains(&k), spec, run.trace
                     ),
                 );
                 return;
@@ -612,14 +595,17 @@ fn judge_completed(out: &mut Out, spec: &Spec, sh: &Shared, run: &crate::sched::
         }
         parsed.push((*t, *s0, *s1, c));
     }
-    if let Some(w) = &k2_witness {
-        // reported as an oracle failure only when the finding is listed (known_findings.json read at run time); the
-        // reproduction is counted either way
-        if known_has(K2_ID) {
-            out.oracle_fail(
-                "K-C07-K2: a render() whose drain pass failed to detach the bucket (a record() installed a new tail block between the drain's tail load and its compare-exchange) misses samples whose record() had returned before it started; they stay pending",
-                w,
-            );
+    // (checked after the renders, so that a render that falls short is reported as such) since the fix a failed detach CAS of `clear_with` must be followed by another tail load of the same thread
+    for (gi, (t, id)) in run.trace.iter().enumerate() {
+        if *id == "bkt.clear.cas" {
+            let next = run.trace[gi + 1..].iter().find(|(t2, _)| t2 == t).map(|x| x.1);
+            if !matches!(next, Some("bkt.clear.quiesced") | Some("bkt.clear.load_tail") | None) {
+                out.oracle_fail(
+                    "a drain pass whose detach compare-exchange failed did not load the tail again (clear_with gave up without draining) [no-known-signature]",
+                    &format!("thread {} grant {} next point {:?}; spec {:?} trace {:?}", t, gi, next, spec, run.trace),
+                );
+                return;
+            }
         }
     }
     // _count never goes back: a render that began after another one ended shows at least as much
@@ -749,13 +735,13 @@ pub fn run_concurrent(cfg: &Cfg, out: &mut Out) {
                 ],
             }
         } else if i == 19 || i == 21 {
-            // corpus: the witness of `C07.conc_render_can_miss_completed_record` (K-C07-K2) replayed on the real exporter,
-            // block size 64: 64 samples recorded (their record() calls have returned) fill the tail block; the drain pass
-            // of a render()/run_upkeep() loads the tail and is parked at its detach CAS; a record() finds the block full,
-            // installs a new tail block and returns; the drain's CAS fails and the pass folds nothing.
-            // i == 19: the pass belongs to a render() — it shows _count 0 although 64 record() calls had returned before
-            // it began; the second render shows all 65. i == 21: the pass is a run_upkeep(), the render after it on the
-            // same thread drains normally and shows all 65 (no shortfall: nothing may be excused).
+            // corpus: the schedule of `C07.legacy_render_misses_completed_record` / `C07.conc_render_after_failed_detach_shows_all`
+            // (the repaired defect, formerly K-C07-K2) on the real exporter, block size 64: 64 samples recorded (their
+            // record() calls have returned) fill the tail block; the drain pass of a render()/run_upkeep() loads the tail and
+            // is parked at its detach CAS; a record() finds the block full, installs a new tail block and returns; the
+            // drain's CAS fails — and `clear_with` loads the tail again, detaches and folds all 65.
+            // i == 19: the pass belongs to a render(): it must show _count 65 (before the fix: 0 although 64 record() calls
+            // had returned before it began). i == 21: the pass is a run_upkeep(), the render after it shows all 65.
             Spec {
                 buckets: false,
                 nkeys: 1,
@@ -763,8 +749,7 @@ pub fn run_concurrent(cfg: &Cfg, out: &mut Out) {
                 roles: vec![Role::Recorder { key: 0, calls: vec![(1.0, 1)] }, Role::Drainer { calls: vec![i == 19, true] }],
             }
         } else if i == 20 {
-            // the same through a scene with TWO keys (not replayed on the one-key model): only the key whose bucket's
-            // detach failed may fall short in that render
+            // the same through a scene with TWO keys (not replayed on the one-key model): no key may fall short
             Spec {
                 buckets: true,
                 nkeys: 2,
@@ -810,17 +795,17 @@ pub fn run_concurrent(cfg: &Cfg, out: &mut Out) {
             sch.extend(vec![1; if i == 19 { 3 } else { 2 }]);
             sch.extend(vec![0; 8]);
             sch.extend(vec![1; 60]);
-            out.count("concurrent.corpus:K-C07-K2-witness(failed-detach)");
+            out.count("concurrent.corpus:failed-detach-is-retried(formerly K-C07-K2 witness)");
         }
         if i == 20 && !degraded {
             // the drain visits the two keys in registry order; park the drainer at the FIRST key's detach CAS and let both
-            // recorders hand over: the first key's detach fails (whichever key that is), the second key's drain starts
-            // only afterwards and succeeds
+            // recorders hand over: the first key's detach fails (whichever key that is) and is retried, the second key's
+            // drain starts only afterwards and succeeds
             sch.extend(vec![2; 3]);
             sch.extend(vec![0; 8]);
             sch.extend(vec![1; 8]);
             sch.extend(vec![2; 80]);
-            out.count("concurrent.corpus:K-C07-K2-two-keys");
+            out.count("concurrent.corpus:failed-detach-is-retried-two-keys");
         }
         if targeted {
             let nrec = nt - 1;
